@@ -13,6 +13,31 @@ def parseKind : String → Option Kind
   | "callcode" => some .callcode
   | _ => none
 
+/-- how a precompile call behaves: always succeeds / always fails / consumes resource `r` (fails when an earlier call that
+is still in the native store consumed it) / needs resource `r` unconsumed -/
+inductive Mode | ok | fail | use (r : Nat) | need (r : Nat)
+
+def resBase : Nat := 200000
+
+def parseMode (s : String) : Option Mode :=
+  match s.splitOn ":" with
+  | ["ok"] => some .ok
+  | ["fail"] => some .fail
+  | ["use", r] => r.toNat?.map .use
+  | ["need", r] => r.toNat?.map .need
+  | _ => none
+
+def markBase : Nat := 300000
+
+/-- "<n>" or "<n>+<r>": n logs, one more when marker r is in the native store; a successful call sets marker r -/
+def parseLogs (s : String) : Option (Nat × Nat) :=
+  match s.splitOn "+" with
+  | [n] => n.toNat?.map (·, 0)
+  | [n, r] => match n.toNat?, r.toNat? with
+    | some n, some r => some (n, r)
+    | _, _ => none
+  | _ => none
+
 def hdrOf (id : Nat) (ws : List String) : Option (CallHdr NS) :=
   match ws with
   | [callc, cap, stip, kind, xfer, sw, pOk, pFail] =>
@@ -53,16 +78,24 @@ partial def parseList : List String → Option (List (Prog NS) × List Nat × Li
         | none => none
       | _, _ => none
     | none => none
-  | "P" :: id :: a :: b :: c :: d :: e :: f :: g :: h :: req :: mode :: w :: _name :: rest =>
-    match id.toNat?, req.toNat? with
-    | some id, some req =>
+  | "P" :: id :: a :: b :: c :: d :: e :: f :: g :: h :: req :: mode :: w :: _name :: _extra :: lgs :: rest =>
+    match id.toNat?, req.toNat?, parseMode mode, parseLogs lgs with
+    | some id, some req, some md, some (nlog, mark) =>
       match hdrOf id [a, b, c, d, e, f, g, h], parseList rest with
       | some hd, some (ns, ms, r) =>
+        -- a failing action half-writes (999999) and emits its logs before it fails
         let act : Action NS := fun ro n =>
-          if (ro && w == "1") || mode != "ok" then (false, 999999 :: n, [id]) else (true, id :: n, [id])
+          let lg := List.replicate (nlog + (if mark != 0 && n.contains (markBase + mark) then 1 else 0)) id
+          let n' := if mark != 0 then (markBase + mark) :: n else n
+          if ro && w == "1" then (false, 999999 :: n, lg) else
+          match md with
+          | .ok => (true, id :: n', lg)
+          | .fail => (false, 999999 :: n, lg)
+          | .use r => if n.contains (resBase + r) then (false, 999999 :: n, lg) else (true, id :: (resBase + r) :: n', lg)
+          | .need r => if n.contains (resBase + r) then (false, 999999 :: n, lg) else (true, id :: n', lg)
         some (.pre hd req act :: ns, ms, r)
       | _, _ => none
-    | _, _ => none
+    | _, _, _, _ => none
   | _ => none
 
 def showNats (xs : List Nat) : String :=
@@ -80,7 +113,8 @@ def step (st : Unit) (line : String) : Unit × String :=
       let status := match r.1 with | .ok => "ok" | .revert => "revert" | .fail => "fail"
       let ms := markers.filter (fun k => r.2.1.slots k != 0)
       let kept := r.2.1.native.filter (· < 100000)
-      (st, s!"{status} markers={showNats ms} kept={showNats kept} ref=same")
+      let used := (gl - intr) - r.2.2
+      (st, s!"{status} gas={used} markers={showNats ms} kept={showNats kept} logs={r.2.1.logs.length} ref=same")
     | _, _, _ => (st, "bad-op")
   | _ => (st, "bad-op")
 
